@@ -61,6 +61,11 @@ pub struct Pre {
 #[derive(Debug)]
 pub struct MachineryError(pub String);
 
+/// Panic payload used by the controlled runtime to unwind parked threads of an aborted execution
+/// (deadlock / horizon). Ignored by the panic hook.
+#[derive(Debug)]
+pub struct Abort;
+
 pub fn machinery(msg: impl Into<String>) -> ! {
     panic::panic_any(MachineryError(msg.into()))
 }
@@ -365,6 +370,9 @@ static HOOK: std::sync::Once = std::sync::Once::new();
 pub fn install_panic_hook() {
     HOOK.call_once(|| {
         panic::set_hook(Box::new(|info| {
+            if info.payload().downcast_ref::<Abort>().is_some() {
+                return;
+            }
             let msg = if let Some(s) = info.payload().downcast_ref::<&str>() {
                 s.to_string()
             } else if let Some(s) = info.payload().downcast_ref::<String>() {
